@@ -350,6 +350,8 @@ def correspond(ctx):
     o_upd = Oracle(ctx, "update-spellings-and-live-vs-rebuilt")
     for tag, inp, ok, obs, exp in update_semantics_cases(rng, 25 if not ctx.thorough else 600):
         o_upd.check(tag, ok, inp, obs, exp)
+    for tag, inp, ok, obs, exp in update_exact_keys_cases(rng, 40 if not ctx.thorough else 1200):
+        o_upd.check(tag, ok, inp, obs, exp)
     res = merge(s_key, o_rt, o_fault, o_upd)
     # ---- the text form (INI) at the level of the values: Model.CtxIni (suite `cini`)
     from . import c10_ini
@@ -431,6 +433,72 @@ def update_semantics_cases(rng, rounds):
             except Exception as e:  # noqa: BLE001
                 other = errname(e)
             yield ("live-equals-rebuilt-from-" + nm, {"op": "live-vs-rebuilt", "history": hist, "via": nm}, live == other, live, other)
+
+
+def update_exact_keys_cases(rng, rounds):
+    """update()/copy() replace exactly the given keys: every other setting — a per-category value that happens to equal the global one
+    included — stays as it was.  Expectation: the context built directly from the merged keyword dictionary (no export in the loop).
+    yields (tag, input, ok, observed, expected)"""
+    from passlib import registry
+    from passlib.context import CryptContext
+
+    schemes = ["sha256_crypt", "sha512_crypt", "md5_crypt", "des_crypt"]
+    samples = {n: registry.get_crypt_handler(n).using(**({"rounds": 1000} if "sha" in n else {})).hash("pw") for n in schemes}
+    cats = [None, "admin", "staff"]
+
+    def behaviour(c):
+        out = []
+        for cat in cats:
+            out.append(c.default_scheme(category=cat))
+            for n in schemes:
+                out.append(c.needs_update(samples[n], category=cat))
+                h = c.handler(n, category=cat)
+                out.append((getattr(h, "min_desired_rounds", None), getattr(h, "max_desired_rounds", None), getattr(h, "default_rounds", None)))
+        return out
+
+    globals_ = [("default", lambda: rng.choice(schemes)), ("deprecated", lambda: rng.choice([["auto"], [], ["des_crypt"], ["md5_crypt", "des_crypt"]])),
+                ("sha256_crypt__min_rounds", lambda: rng.choice([1000, 2000])), ("sha256_crypt__default_rounds", lambda: rng.choice([2000, 3000])),
+                ("all__max_rounds", lambda: rng.choice([4000, 6000]))]
+    for _ in range(rounds):
+        base = {"schemes": schemes}
+        for k, gen in rng.sample(globals_, rng.randrange(1, 4)):
+            base[k] = gen()
+        # category settings: half of them a copy of the global value (the case an exporter is tempted to drop)
+        for cat in rng.sample(["admin", "staff"], rng.randrange(1, 3)):
+            for k, gen in rng.sample(globals_, rng.randrange(1, 3)):
+                ck = f"{cat}__context__{k}" if k in ("default", "deprecated") else f"{cat}__{k}"
+                base[ck] = base[k] if (k in base and rng.random() < 0.6) else gen()
+        change = {}
+        for k, gen in rng.sample(globals_, rng.randrange(1, 3)):
+            change[k] = gen()
+        merged = dict(base)
+        merged.update(change)
+        try:
+            ref = behaviour(CryptContext(**merged))
+            CryptContext(**base)
+        except Exception:  # noqa: BLE001
+            continue        # an inconsistent combination (default deprecated, …): the refusal is checked elsewhere
+        for how in ("update", "copy", "load-update", "update-twice", "via-dict"):
+            inp = {"op": "update-exact-keys", "base": repr(base), "change": repr(change), "how": how}
+            try:
+                c = CryptContext(**base)
+                if how == "update":
+                    c.update(**change)
+                elif how == "copy":
+                    c = c.copy(**change)
+                elif how == "load-update":
+                    c.load(change, update=True)
+                elif how == "update-twice":
+                    c.update()
+                    c.update(**change)
+                else:
+                    d = c.to_dict()
+                    d.update(change)
+                    c = CryptContext(**d)
+                got = behaviour(c)
+            except Exception as e:  # noqa: BLE001
+                got = errname(e) + ": " + str(e)[:80]
+            yield ("update-exact-keys", inp, got == ref, repr(got)[:400], repr(ref)[:400])
 
 
 def search(ctx, broken, seeds):
